@@ -205,6 +205,42 @@ def run_default(c):
             return [1, 2]
     hits, tags = [], set()
     name = c["name"]
+    if c.get("via") == "assign":
+        # the default is computed as the OLD value of the first assignment (a handler is registered):
+        # the assignment fails with the default's exception, stores nothing, notifies nobody, and the same
+        # assignment repeated afterwards behaves as on an object that never saw the failure
+        val = {"x": 7, "ys": [3], "b": Box()}[name]
+
+        def assign(obj, lg):
+            try:
+                setattr(obj, name, val)
+                return "ok"
+            except BaseException as ex:
+                return "err " + S.exc_name(ex)
+        d, log = D(), []
+        d.on_trait_change(lambda o, n, old, new: log.append((n, repr(old) if not isinstance(old, Box) else "Box", repr(new) if not isinstance(new, Box) else "Box")), "x,ys,b")
+        fault.arm(0, c["exc"])
+        r = assign(d, log)
+        fired = fault.fired
+        fault.disarm()
+        sg = "default-on-assign:" + name
+        if fired:
+            tags.add("fired:default-on-assign:" + c["exc"])
+            if not r.startswith("err"):
+                hits.append(_hit("callback-failure-swallowed:" + sg, "default raising %s during an assignment was swallowed" % c["exc"]))
+            elif r.split()[1] not in (c["exc"], "TraitError"):
+                hits.append(_hit("callback-exception-changed:" + sg, "injected %s surfaced as %s" % (c["exc"], r)))
+            if name in d.__dict__:
+                hits.append(_hit("failed-op-mutated:" + sg, "a value was stored although the default computation raised"))
+            if log:
+                hits.append(_hit("failed-op-notified:" + sg, "handlers notified although the default computation raised", log=list(log)))
+            r2 = assign(d, log)
+            t, tlog = D(), []
+            t.on_trait_change(lambda o, n, old, new: tlog.append((n, repr(old) if not isinstance(old, Box) else "Box", repr(new) if not isinstance(new, Box) else "Box")), "x,ys,b")
+            rt = assign(t, tlog)
+            if (r2, log) != (rt, tlog):
+                hits.append(_hit("twin-differs:" + sg, "the repeated assignment differs from a fault-free twin", got=[r2, log], twin=[rt, tlog]))
+        return r, hits, tags
     d = D()
     log = []
     d.on_trait_change(lambda o, n, old, new: log.append(n), "x,ys,b")
@@ -634,6 +670,8 @@ def generate(rng, n, excs):
             c = {"scalar": "validator", "steps": steps, "at": at, "k": rng.randint(0, kmax), "exc": exc}
         elif r < 0.6:
             c = {"scalar": "default", "name": rng.choice(["x", "ys", "b"]), "exc": exc}
+            if rng.random() < 0.4:
+                c["via"] = "assign"
         elif r < 0.75:
             c = {"scalar": "property", "site": rng.choice(["getter", "setter"]), "warm": rng.choice([0, 1]), "exc": exc}
         elif r < 0.80:
